@@ -3,7 +3,7 @@
 // VF-RULE: E2, one space per clause: (numbers) every string of length <= L over {0,1,9,.,-,+,e,E,space} against a reference recogniser for the strict decimal grammar and strtod/exact integer values; (format) toString(x,17)->toDouble for +-m*2^e, m in 6 mantissa patterns, every exponent -1074..1023, and toString(i)->toInt for every 17-bit int and the int32 boundaries; (tokenisers) every string of length <= L over {a,b,",",space,(,),=} x delimiter set x solid x allowEmptyTokens, re-join with the recorded splits at every cursor position; nested tokeniser on every bracket-balanced string against a depth-0 splitter; (key-values) every procedure rendered from a name and an argument map, parsed back, and every changeKeyvals substitution; (wildcards) every pattern over {a,b,*} against every name over {a,b} of length <= 5 for the three matchers vs a DP glob matcher; (variables) every map over keys {a,b,c} with values from words over {x,$(a),$(b),$(c)}; (tables) every table over cells {x,y,1} up to 3x3 and every shape up to 6x6 with distinct cells x name options x separator; (distributions) every family and nested compound x class counts 1..8 x a parameter lattice, written then read. A case is non-trivial when the datum is non-empty / the string belongs to the grammar / the table has >= 2 cells.
 // VF-BOUND: all finite doubles -> 6 mantissa patterns x all 2098 binary exponents x sign; all ints -> [-2^16,2^16] and the int32 boundaries; strings of length <= 24 -> all strings of length <= 5|6 (numbers) and <= 5|7 (tokenisers) over 7..9 characters; argument maps over 4|6 keys and 4 values (nested one level); patterns of length <= 6|8; tables up to 3x3 over 3 cell values and every shape to 6x6; distribution parameters on a lattice of 2-4 values per parameter
 // VF-LEVEL: bounded-exhaustive comparison of the real code with reference models written for the harness (recogniser, splitter, glob matcher, substitution, table and distribution equality); no sampling
-// VF-ASSUME: strtod of the C library is correctly rounded and gives the value of a decimal literal;; the reference recogniser implements the most permissive strict reading -?(D+(.D*)?|.D+)(e[+-]?D+)? for numbers and -?D+(e+?D+)? for integers with the configured decimal/exponent characters;; variable resolution that uses more than 0.02 s of CPU time does not terminate (terminating cases take microseconds)
+// VF-ASSUME: strtod of the C library is correctly rounded and gives the value of a decimal literal;; the reference recogniser implements the most permissive strict reading -?(D+(.D*)?|.D+)(e[+-]?D+)? for numbers and -?D+(e+?D+)? for integers with the configured decimal/exponent characters;; variable resolution that uses more than 0.05 s of CPU time does not terminate (terminating cases take microseconds)
 // VF-TECHNIQUE: exhaustive small-scope enumeration with reference models
 // VF-BUDGET_QUICK: 300
 // VF-BUDGET_THOROUGH: 2400
@@ -390,7 +390,7 @@ static void variableSpace(vf::Runner& R, bool th) {
     map<string, string> want; if (clean) for (auto& kv : am) want[kv.first] = expand(kv.second);
     map<string, string> got = am;
     c.site("AttributesTools::resolveVariables");
-    armCpu(0.02);
+    armCpu(0.05);
     bool raised = false;
     try { AttributesTools::resolveVariables(got); } catch (bpp::Exception&) { raised = true; }
     armCpu(0);
@@ -400,7 +400,7 @@ static void variableSpace(vf::Runner& R, bool th) {
     if (clean && got != want) { string g; for (auto& kv : got) g += kv.first + "=" + kv.second + "; "; c.fail("variables|resolveVariables|value-differs-from-substitution", in + " resolved to {" + g + "}"); }
     map<string, string> again = got;
     c.site("AttributesTools::resolveVariables(second pass)");
-    armCpu(0.02);
+    armCpu(0.05);
     try { AttributesTools::resolveVariables(again); } catch (bpp::Exception&) {}
     armCpu(0);
     if (again != got) c.fail("variables|resolveVariables|not-a-fixed-point", in + ": a second pass changes the map");
@@ -533,6 +533,7 @@ static void distSpace(vf::Runner& R) {
 
 // =====================================================================================================================
 int main(int argc, char** argv) {
+  try { throw bpp::Exception("warm-up"); } catch (bpp::Exception& e) { use(string(e.what())); }   // first-exception costs are paid before any case is timed
   vf::Runner R(argc, argv, "C17");
   bool th = R.thorough();
   silence();
@@ -546,7 +547,7 @@ int main(int argc, char** argv) {
   variableSpace(R, th);
   tableSpaces(R, th);
   distSpace(R);
-  if (!R.replay) {
+  if (!R.replay && R.timeLeft()) {   // (after the global deadline the spaces are reported as incomplete instead)
     R.expectSeen("numbers: number literal"); R.expectSeen("numbers: integer literal"); R.expectSeen("numbers: not in the grammar");
     R.expectSeen("numbers: toDouble value judged"); R.expectSeen("numbers: toInt value judged");
     R.expectSeen("format: subnormal double"); R.expectSeen("format: normal double");
@@ -557,7 +558,7 @@ int main(int argc, char** argv) {
   R.note("number grammar: the statement does not spell it out; the most permissive strict reading is used, -?(D+(.D*)?|.D+)(e[+-]?D+)? and -?D+(e+?D+)? with the decimal and exponent characters the call configures; values are judged only when the literal is 0 or inside [DBL_MIN,DBL_MAX] / the int range");
   R.note("tokenisers: re-join = tokens and recorded separators from the cursor on; it must equal the input up to one leading and one trailing run of delimiter characters (which run is dropped depends on the mode; the header documents no more). Inputs without any token are recorded, not judged (unparseRemainingTokens on an empty token list is reported by C16)");
   R.note("nested tokeniser: judged on bracket-balanced inputs only, against a splitter that cuts at delimiter characters met at bracket depth 0 and drops empty pieces");
-  R.note("variables: termination is judged by a CPU-time watchdog (0.02 s; a non-terminating case appears as crash|AttributesTools::resolveVariables|exit97); value equality with full substitution only for acyclic maps whose references are all defined");
+  R.note("variables: termination is judged by a CPU-time watchdog (0.05 s; a non-terminating case appears as crash|AttributesTools::resolveVariables|exit97); value equality with full substitution only for acyclic maps whose references are all defined");
   R.note("tables: written with DataTable::write(ostream) and read with header = (column names present), rowNames=-1; tables whose text has fewer than two lines are outside the clause");
   R.note("distributions: values printed with 6 decimals (Simple/Mixture values and probabilities) are exact on the lattice; parameters are printed with 12 decimals (one lattice value, alpha=0.1234567891, needs 10); tolerance 1e-9 on class values (relative, floor absolute) and probabilities for the parameter-driven families and 1e-6 (the printed precision) for Simple and Mixture; the description language has no field for the value of the invariant class, the reader uses 1e-6, so Invariant objects are built with that value");
   return R.finish();
